@@ -25,6 +25,7 @@ func runC20(c *Ctx) {
 	c20Watcher(c)
 	// the watcher maps the I/O error Upgrade returns: Upgrade must hand it back unchanged
 	dialerUpgradeRules(c, "C20")
+	c20DialConn(c)
 }
 
 func c20Dial(c *Ctx) {
@@ -456,4 +457,114 @@ func c20Watcher(c *Ctx) {
 		}
 	}
 	c.verdict(rule, rule+"/done-mapping", c.P.FuncPos(doneFn), uniq(problems), "close(quit) once; one receive; ctx error wins iff the I/O error is nil or a timeout")
+}
+
+// c20DialConn folds Dialer.dial: once the network dial has produced a
+// connection, every path either hands that connection (possibly wrapped) to the
+// caller with a nil error, or closes it before reporting an error - the caller
+// (Dial) only closes connections it was given.
+func c20DialConn(c *Ctx) {
+	const rule = "C20.dial-connection-ownership"
+	c.R.Rule(rule, 1, "Dialer.dial never drops a dialed connection: it is returned without error, or closed before an error is returned")
+	f := c.method(rule, ws, "Dialer", "dial")
+	dn := c.P.NamedType(ws, "Dialer")
+	if f == nil || dn == nil {
+		return
+	}
+	dst := structOf(dn)
+	m := c.machine()
+	m.OpaqueOK = true
+	dialModel := func(cl *fold.Call) fold.Val {
+		cl.M.Emit(fold.Effect{Kind: "call", Name: "netdial", Args: cl.Args})
+		if cl.M.Choose("dial.err", 2) == 1 {
+			return fold.Tuple{fold.Nil{}, fold.Sym{Name: "dial-error", NonNil: true}}
+		}
+		return fold.Tuple{fold.Iface{V: fold.Sym{Name: "conn", NonNil: true}}, fold.Nil{}}
+	}
+	m.Models["callback:NetDial"] = dialModel
+	m.Models["(*net.Dialer).DialContext"] = dialModel
+	m.Models["(*net.Dialer).DialContext$bound"] = dialModel
+	m.Models["callback:TLSClient"] = func(cl *fold.Call) fold.Val {
+		cl.M.Emit(fold.Effect{Kind: "call", Name: "tls", Args: cl.Args})
+		return fold.Iface{V: fold.Sym{Name: "tls(conn)", NonNil: true}}
+	}
+	m.Models["("+ws+".Dialer).tlsClient"] = func(cl *fold.Call) fold.Val {
+		cl.M.Emit(fold.Effect{Kind: "call", Name: "tls", Args: cl.Args[1:]})
+		return fold.Iface{V: fold.Sym{Name: "tls(conn)", NonNil: true}}
+	}
+	m.Models["("+ws+".Dialer).tlsClient$bound"] = m.Models["("+ws+".Dialer).tlsClient"]
+	m.Models["callback:WrapConn"] = func(cl *fold.Call) fold.Val {
+		cl.M.Emit(fold.Effect{Kind: "call", Name: "wrap", Args: cl.Args})
+		return fold.Iface{V: fold.Sym{Name: "wrap(" + fold.Show(cl.Args[0]) + ")", NonNil: true}}
+	}
+	m.Models["invoke:(net.Conn).Close"] = func(cl *fold.Call) fold.Val {
+		cl.M.Emit(fold.Effect{Kind: "call", Name: "Close", Args: cl.Args})
+		return fold.Nil{}
+	}
+	m.Models["fmt.Errorf"] = func(cl *fold.Call) fold.Val { return fold.Sym{Name: "scheme-error", NonNil: true} }
+	m.Models[ws+".hostport"] = func(cl *fold.Call) fold.Val {
+		return fold.Tuple{fold.SymSeq{Name: "hostname", IsStr: true, Len: fold.Range(0, 1<<20)}, fold.SymSeq{Name: "addr", IsStr: true, Len: fold.Range(0, 1<<20)}}
+	}
+	ut := c.P.ByPath["net/url"]
+	var urlT types.Type
+	if ut != nil {
+		if o := ut.Types.Scope().Lookup("URL"); o != nil {
+			urlT = o.Type()
+		}
+	}
+	if urlT == nil {
+		c.R.Unknown(rule, rule+"/anchor:url.URL", "-", "net/url.URL does not resolve")
+		return
+	}
+	ust := structOf(urlT)
+	iScheme := fieldIdx(ust, "Scheme", nil)
+	var problems []string
+	paths := m.Explore(f, func(mm *fold.Machine) []fold.Val {
+		d := fold.SymOfType("d", dn).(fold.Struct)
+		for i := 0; i < dst.NumFields(); i++ {
+			switch dst.Field(i).Type().Underlying().(type) {
+			case *types.Signature:
+				if mm.Choose("set("+dst.Field(i).Name()+")", 2) == 1 {
+					d.F[i] = fold.Sym{Name: dst.Field(i).Name(), NonNil: true}
+				} else {
+					d.F[i] = fold.Nil{}
+				}
+			}
+		}
+		u := fold.SymOfType("u", urlT).(fold.Struct)
+		u.F[iScheme] = fold.Str([]string{"ws", "wss", "http"}[mm.Choose("scheme", 3)])
+		return []fold.Val{d, fold.Iface{V: fold.Sym{Name: "ctx", NonNil: true}}, fold.Ref{O: mm.NewObj("url", u)}}
+	}, func(mm *fold.Machine, p *fold.Path) {
+		ret, _ := p.Ret.(fold.Tuple)
+		if len(ret) != 2 {
+			problems = append(problems, "unexpected result shape")
+			return
+		}
+		e := c.errName(ret[1])
+		desc := "[" + p.ChoiceString() + "]"
+		dialed := len(p.Calls("netdial")) > 0 && p.Chose("dial.err") == 0
+		closed := len(p.Calls("Close")) > 0
+		switch {
+		case !dialed:
+			if e == "nil" {
+				problems = append(problems, "dial reports success although no connection was established "+desc)
+			}
+		case e != "nil" && !closed:
+			problems = append(problems, "a connection was dialed, but dial returns the error "+e+" without closing it: nobody can close it any more "+desc)
+		case e == "nil":
+			if !strings.Contains(fold.Show(ret[0]), "conn") {
+				problems = append(problems, "dial succeeds but does not return the dialed connection: "+fold.Show(ret[0])+" "+desc)
+			}
+			if closed {
+				problems = append(problems, "dial closes the connection it returns "+desc)
+			}
+		}
+	})
+	for _, p := range paths {
+		if p.Abort != "" || p.Panic {
+			problems = append(problems, "undecided: "+p.Abort+panicNote(p))
+		}
+	}
+	c.R.AddCells(len(paths))
+	c.verdict(rule, rule+"/dial", c.P.FuncPos(f), uniq(problems), fmt.Sprintf("%d paths over scheme x callbacks set x dial outcome", len(paths)))
 }
